@@ -74,6 +74,24 @@ theorem C06_tree_roundtrip_partial (o : ExportOpts) (m : VMap) (h : MapOK1 m) (h
   simp only [Except.map]
   rw [assignIds_preserve _ (idsOK_rawRT o m hid), fix_rawRT_eq_project o m h]
 
+/-- **Fixed point (v1 domain).** Exporting the re-parsed map again (without incrementing the map
+version a second time) yields the same tree as the first export: export -> parse -> export changes
+nothing. (`logicalPos ≠ []`: the constructor of the implementation never leaves it empty.) -/
+theorem C06_fixed_point_partial (o : ExportOpts) (m : VMap) (h : MapOK1 m) (hid : IdsOK m)
+    (hl : ∀ e ∈ m.ents, e.logicalPos ≠ []) :
+    (parseTree true (exportTree o m)).map (exportTree { o with incVersion := false })
+      = .ok (exportTree o m) := by
+  rw [C06_tree_roundtrip_partial o m h hid]
+  simp only [Except.map]
+  rw [exportTree_project o m h hl]
+
+/-- The second generation is stable for ever: the projected map is its own projection as far as
+the exported tree is concerned. -/
+theorem C06_project_export (o : ExportOpts) (m : VMap) (h : MapOK1 m)
+    (hl : ∀ e ∈ m.ents, e.logicalPos ≠ []) :
+    exportTree { o with incVersion := false } (project o m) = exportTree o m :=
+  exportTree_project o m h hl
+
 /-- Sub-structure forms of the same statement (each reader undoes its writer). -/
 theorem C06_entity_partial (mb w hidden : Bool) (groups : List Group) (e : Ent) (h : EntOK1 e)
     (hg : ∀ g ∈ groups, GroupOK g = true) :
@@ -174,6 +192,11 @@ theorem exMap_ids : IdsOK exMap :=
       intro e he
       have : e = exEnt ∨ e = { exEnt with id := 6, hidden := false, solids := [] } := by simpa [exMap] using he
       rcases this with rfl | rfl <;> exact ⟨by decide, by decide⟩ }
+
+example : (parseTree true (exportTree { minimal := true, multiblend := false, incVersion := true } exMap)).map
+      (exportTree { minimal := true, multiblend := false, incVersion := false })
+    = .ok (exportTree { minimal := true, multiblend := false, incVersion := true } exMap) :=
+  C06_fixed_point_partial { minimal := true, multiblend := false, incVersion := true } exMap exMap_ok exMap_ids (by decide)
 
 example : parseTree true (exportTree { minimal := false, multiblend := true, incVersion := true } exMap)
     = .ok (project { minimal := false, multiblend := true, incVersion := true } exMap) :=
